@@ -144,14 +144,19 @@ type Conn struct {
 	closed bool
 }
 
+// Spawn starts the goroutine that runs a server-side session.  The scheduler build replaces it
+// with vsched.Go so that the session is a managed goroutine (parks at its scheduling points)
+// instead of running free.
+var Spawn = func(f func()) { go f() }
+
 func newConn(serve func(net.Conn)) *Conn {
 	sc, cc := net.Pipe()
 	k := &Conn{c: cc, Done: make(chan struct{})}
 	k.cond = sync.NewCond(&k.mu)
-	go func() {
+	Spawn(func() {
 		defer close(k.Done)
 		serve(sc)
-	}()
+	})
 	go func() {
 		b := make([]byte, 65536)
 		for {
